@@ -460,6 +460,12 @@ def compile_and_run(vh, programs, workdir, py=None, opt=1, jobs=12, run=True, re
     byid = {o["id"]: o for o in res}
     if len(byid) != len(recs):
         raise ToolError(f"compile harness returned {len(byid)} of {len(recs)} results")
+    # a watchdog timeout on a loaded machine is not a hang: confirm alone with a generous limit
+    for i, o in list(byid.items()):
+        if "hang" in o:
+            again = vh_all(vh, "check", [recs[i]], args=["120000"], jobs=1, env=env)
+            if again:
+                byid[i] = again[0]
     out = [{"compile": byid[i], "run": None} for i in range(len(programs))]
     ok = [i for i in range(len(programs)) if byid[i].get("ok")]
     if run and ok:
